@@ -26,6 +26,7 @@ at the top-level directory.
  * Purpose:		Sparse BLAS 2, using some dense BLAS 2 operations.
  */
 
+#include <ctype.h>
 #include "slu_ddefs.h"
 
 /*! \brief Solves one of the systems of equations A*x = b,   or   A'*x = b
@@ -101,6 +102,13 @@ sp_dtrsv(char *uplo, char *trans, char *diag, SuperMatrix *L,
     int_t luptr, istart, i, k, iptr;
     double *work;
     flops_t solve_ops;
+
+    char uplo_u[2], trans_u[2], diag_u[2];
+
+    /* Accept the documented lower-case spellings. */
+    uplo_u[0] = (char) toupper((unsigned char) *uplo);   uplo_u[1] = '\0';  uplo = uplo_u;
+    trans_u[0] = (char) toupper((unsigned char) *trans); trans_u[1] = '\0'; trans = trans_u;
+    diag_u[0] = (char) toupper((unsigned char) *diag);   diag_u[1] = '\0';  diag = diag_u;
 
     /* Test the input parameters */
     *info = 0;
@@ -388,6 +396,8 @@ sp_dgemv(char *trans, double alpha, SuperMatrix *A, double *x,
     int_t i, j;
     int notran;
 
+    char trans_u[2];
+    trans_u[0] = (char) toupper((unsigned char) *trans); trans_u[1] = '\0'; trans = trans_u;
     notran = ( strncmp(trans, "N", 1)==0 || strncmp(trans, "n", 1)==0 );
     Astore = A->Store;
     Aval = Astore->nzval;
@@ -463,7 +473,16 @@ sp_dgemv(char *trans, double alpha, SuperMatrix *A, double *x,
 		jx += incx;
 	    }
 	} else {
-	    ABORT("Not implemented.");
+	    for (j = 0; j < A->ncol; ++j) {
+		if (x[jx] != 0.) {
+		    temp = alpha * x[jx];
+		    for (i = Astore->colptr[j]; i < Astore->colptr[j+1]; ++i) {
+			irow = Astore->rowind[i];
+			y[ky + irow * incy] += temp * Aval[i];
+		    }
+		}
+		jx += incx;
+	    }
 	}
     } else {
 	/* Form  y := alpha*A'*x + y. */
@@ -479,7 +498,15 @@ sp_dgemv(char *trans, double alpha, SuperMatrix *A, double *x,
 		jy += incy;
 	    }
 	} else {
-	    ABORT("Not implemented.");
+	    for (j = 0; j < A->ncol; ++j) {
+		temp = 0.;
+		for (i = Astore->colptr[j]; i < Astore->colptr[j+1]; ++i) {
+		    irow = Astore->rowind[i];
+		    temp += Aval[i] * x[kx + irow * incx];
+		}
+		y[jy] += alpha * temp;
+		jy += incy;
+	    }
 	}
     }
 
